@@ -50,5 +50,7 @@ def run(F, rep):
     rep.run(dt_strings.avx_kernels, F, rep, "C14.2", thorough=False)
     rep.run(dt_strings.byte_tables, F, rep, "C14.2")
     rep.run(dt_strings.from_str_lemmas, F, rep, "C14.2")
+    # the ASCII constructor that substitutes non-ACGT letters: A/C/G/T in either case are the plain vector's bases
+    rep.run(dt_strings.hashn_table, F, rep, "C14.2")
     # base iteration by reference (`for b in &x`): exact, whatever iterator type implements it
     rep.run(lemmas.container_iter_lemmas, F, rep, "C14.6", conts=("string",), quick=(rep.tier != "thorough"))
